@@ -250,10 +250,13 @@ def work(task):
     for i, tree in live:
         tn_ref = V.tname(V.typeof(tree))
         for k, env in enumerate(vals[i]):
-            text = G.render(tree, const_leaf(env))
-            r = eval_py(text)
+            text = G.render(tree, const_leaf(env), "hw")
+            r = eval_py(G.render(tree, const_leaf(env), "py"))
             py[(i, k)] = r
-            if r[0] == "ok" and port_decl(r[1]) is not None:
+            if _assign_conv(tree):
+                # the conversion happens in the assignment: the port has the documented target type
+                (entries_ok if r[0] == "ok" else entries_rej).append(((i, k), text, tn_ref))
+            elif r[0] == "ok" and port_decl(r[1]) is not None:
                 entries_ok.append(((i, k), text, r[1]))
             else:
                 entries_rej.append(((i, k), text, tn_ref))
@@ -285,7 +288,10 @@ def work(task):
                 ways["py"] = (p[1], p[2])
             else:
                 rec["py_reject"] += 1
-            if c[0] == "ok":
+            conv_tn = V.tname(V.typeof(tree)) if _assign_conv(tree) else None
+            if c[0] == "ok" and conv_tn:
+                ways["cc"] = (conv_tn, c[3])  # probe sees the source; the converted value is what the port holds
+            elif c[0] == "ok":
                 ways["cc"] = (c[1], c[3])
                 # the probe value and the literal read back from the emitted text
                 if c[2] is not None and c[3] != c[2] and not (c[1] == "bool" and bool(c[2]) == c[3]):
@@ -295,7 +301,7 @@ def work(task):
             else:
                 rec["cc_reject"] += 1
             if r3[0] == "ok":
-                ways["rt"] = (r3[1], _norm(r3[1], r3[2][k]))
+                ways["rt"] = (conv_tn or r3[1], _norm(conv_tn or r3[1], r3[2][k]))
             elif r3[0] in ("simerror", "static") and ways:
                 rec["problems"].append({"kind": "rt-" + r3[0], "env": env,
                                         "what": f"{r3[1]} -- while " + ", ".join(f"{w}={tv[0]}:{tv[1]}" for w, tv in ways.items())})
@@ -322,6 +328,10 @@ def work(task):
     return {"results": results, "counters": dict(counters)}
 
 
+def _assign_conv(tree):
+    return tree[0] == "conv" and tree[1] == "assign"
+
+
 def finding_key(tree, problem):
     return f"{C02.input_class(tree)}/{G.describe(tree)}/{problem['kind']}"
 
@@ -340,8 +350,10 @@ def trees_for(run: Run):
     """plus the operations with ONE operand replaced by a typed constant: there the run-time way (3) is the mixed
     form (constant operand next to an input port), compared with the all-constant ways (1) and (2)"""
     ws = (1, 2, 3, 4) if run.thorough else (1, 2, 3)
+    conv = [(f, t) for f, t in G.conversions(ws, None if run.thorough else (1, 2))
+            if "'variable'" not in repr(t) and "'varassign'" not in repr(t)]  # forms that exist for constants too
     return (list(G.depth1(ws, mixed=True, families=FAMILIES))
-            + list(G.depth1_const(ws, mixed=True, families=CONST_MIX_FAMILIES)))
+            + list(G.depth1_const(ws, mixed=True, families=CONST_MIX_FAMILIES)) + conv)
 
 
 def main(run: Run):
